@@ -110,4 +110,124 @@ theorem encConn_length (c : ConnState) : (encConn c).length = 56 := by simp [enc
 theorem encHandoff_length (h : Handoff) : (encHandoff h).length = 48 := by simp [encHandoff, encResult]
 theorem encKey_length (k : Key) : (encKey k).length = 40 := by simp [encKey]
 
+/-! ### keys -/
+
+theorem beVal_cons_aux (l : Bytes) : ∀ acc, l.foldl (fun a b => a * 256 + b) acc = acc * 256 ^ l.length + beVal l := by
+  induction l with
+  | nil => intro acc; simp [beVal]
+  | cons x xs ih =>
+    intro acc
+    simp only [List.foldl_cons, List.length_cons, beVal]
+    rw [ih (acc * 256 + x), ih (0 * 256 + x)]
+    simp only [Nat.zero_mul, Nat.zero_add, Nat.pow_succ]
+    rw [Nat.add_mul, Nat.mul_assoc, Nat.mul_comm 256, Nat.add_assoc]
+
+theorem beVal_cons (a : Nat) (l : Bytes) : beVal (a :: l) = a * 256 ^ l.length + beVal l := by
+  unfold beVal
+  simp only [List.foldl_cons, Nat.zero_mul, Nat.zero_add]
+  exact beVal_cons_aux l a
+
+theorem beBytes_succ (n v : Nat) : beBytes (n + 1) v = (v / 2 ^ (8 * n) % 256) :: beBytes n v := by
+  unfold beBytes
+  rw [List.range_succ_eq_map, List.map_cons, List.map_map]
+  congr 1
+  apply List.map_congr_left
+  intro i hi
+  have : i < n := by simpa using hi
+  simp only [Function.comp]
+  congr 3
+  omega
+
+theorem beVal_beBytes (n v : Nat) : beVal (beBytes n v) = v % 2 ^ (8 * n) := by
+  induction n with
+  | zero => simp [beBytes, beVal, Nat.mod_one]
+  | succ n ih =>
+    rw [beBytes_succ, beVal_cons, ih, beBytes_length]
+    have h256 : (256 : Nat) ^ n = 2 ^ (8 * n) := by
+      rw [show (256 : Nat) = 2 ^ 8 from rfl, ← Nat.pow_mul]
+    rw [h256, show 8 * (n + 1) = 8 * n + 8 from by omega, Nat.pow_add, Nat.mod_mul]
+    rw [Nat.mul_comm, Nat.add_comm]
+
+theorem slice_append_right (a b : Bytes) (o n : Nat) (h : a.length ≤ o) :
+    slice (a ++ b) o n = slice b (o - a.length) n := by
+  unfold slice
+  apply List.map_congr_left
+  intro i _
+  rw [rd_append]
+  have : ¬ (o + i < a.length) := by omega
+  simp only [this, if_false]
+  congr 1; omega
+
+theorem slice_append_left (a b : Bytes) (n : Nat) (h : a.length = n) : slice (a ++ b) 0 n = a := by
+  unfold slice
+  apply List.ext_getElem
+  · simp [h]
+  · intro i h1 h2
+    simp only [List.getElem_map, List.getElem_range, Nat.zero_add]
+    rw [rd_append]
+    have : i < a.length := by simpa [h] using h1
+    simp [this, rd, List.getD]
+
+theorem rd_beBytes2 (v i : Nat) (h : i < 2) : rd (beBytes 2 v) i = v / 2 ^ (8 * (1 - i)) % 256 := by
+  simp [rd, beBytes, List.getD, h]
+
+theorem decKey_encKey (k : Key) (h : k.WF) : decKey (encKey k) = k := by
+  obtain ⟨h1, h2, h3, h4, h5⟩ := h
+  have e : encKey k = beBytes 16 k.sip ++ (beBytes 16 k.dip ++ (beBytes 2 k.sport ++ (beBytes 2 k.dport ++
+      ([k.l4 % 256] ++ zeros 3)))) := by
+    simp [encKey, List.append_assoc]
+  unfold decKey
+  rw [e]
+  have s1 : slice (beBytes 16 k.sip ++ (beBytes 16 k.dip ++ (beBytes 2 k.sport ++ (beBytes 2 k.dport ++
+      ([k.l4 % 256] ++ zeros 3))))) 0 16 = beBytes 16 k.sip := slice_append_left _ _ 16 (by simp)
+  have s2 : slice (beBytes 16 k.sip ++ (beBytes 16 k.dip ++ (beBytes 2 k.sport ++ (beBytes 2 k.dport ++
+      ([k.l4 % 256] ++ zeros 3))))) 16 16 = beBytes 16 k.dip := by
+    rw [slice_append_right _ _ _ _ (by simp)]
+    simp only [beBytes_length, Nat.sub_self]
+    exact slice_append_left _ _ 16 (by simp)
+  rw [s1, s2, beVal_beBytes, beVal_beBytes]
+  have p1 : be16 (beBytes 16 k.sip ++ (beBytes 16 k.dip ++ (beBytes 2 k.sport ++ (beBytes 2 k.dport ++
+      ([k.l4 % 256] ++ zeros 3))))) 32 = k.sport := by
+    simp only [be16, rd_append, beBytes_length]
+    simp only [show ¬ (32 < 16) from by omega, show ¬ (33 < 16) from by omega, show ¬ (32 - 16 < 16) from by omega,
+      show ¬ (33 - 16 < 16) from by omega, if_false, show 32 - 16 - 16 = 0 from rfl, show 33 - 16 - 16 = 1 from rfl,
+      show (0 < 2) from by omega, show (1 < 2) from by omega, if_true, rd_beBytes2]
+    omega
+  have p2 : be16 (beBytes 16 k.sip ++ (beBytes 16 k.dip ++ (beBytes 2 k.sport ++ (beBytes 2 k.dport ++
+      ([k.l4 % 256] ++ zeros 3))))) 34 = k.dport := by
+    simp only [be16, rd_append, beBytes_length]
+    simp only [show ¬ (34 < 16) from by omega, show ¬ (35 < 16) from by omega, show ¬ (34 - 16 < 16) from by omega,
+      show ¬ (35 - 16 < 16) from by omega, if_false, show ¬ (34 - 16 - 16 < 2) from by omega,
+      show ¬ (35 - 16 - 16 < 2) from by omega, show 34 - 16 - 16 - 2 = 0 from rfl, show 35 - 16 - 16 - 2 = 1 from rfl,
+      show (0 < 2) from by omega, show (1 < 2) from by omega, if_true, rd_beBytes2]
+    omega
+  have p3 : rd (beBytes 16 k.sip ++ (beBytes 16 k.dip ++ (beBytes 2 k.sport ++ (beBytes 2 k.dport ++
+      ([k.l4 % 256] ++ zeros 3))))) 36 = k.l4 := by
+    simp only [rd_append, beBytes_length]
+    simp only [show ¬ (36 < 16) from by omega, show ¬ (36 - 16 < 16) from by omega, if_false,
+      show ¬ (36 - 16 - 16 < 2) from by omega, show ¬ (36 - 16 - 16 - 2 < 2) from by omega,
+      show 36 - 16 - 16 - 2 - 2 = 0 from rfl, List.length_singleton, show (0 < 1) from by omega, if_true, rd_cons_zero]
+    exact Nat.mod_eq_of_lt h5
+  rw [p1, p2, p3, Nat.mod_eq_of_lt (by simpa using h1), Nat.mod_eq_of_lt (by simpa using h2)]
+
+theorem encKey_inj (a b : Key) (ha : a.WF) (hb : b.WF) (h : encKey a = encKey b) : a = b := by
+  rw [← decKey_encKey a ha, ← decKey_encKey b hb, h]
+
+/-- looking raw key bytes up in the image of a map = looking the key up in the map -/
+theorem alookup_image {β γ : Type} (m : List (Key × β)) (g : β → γ) (k : Key)
+    (hm : ∀ p ∈ m, p.1.WF) (hk : k.WF) :
+    alookup (m.map fun p => (encKey p.1, g p.2)) (encKey k) = (alookup m k).map g := by
+  induction m with
+  | nil => rfl
+  | cons p rest ih =>
+    obtain ⟨a, b⟩ := p
+    simp only [List.map_cons]
+    unfold alookup
+    have hwa : a.WF := hm (a, b) (List.mem_cons_self ..)
+    by_cases h : a = k
+    · subst h; simp
+    · have : ¬ encKey a = encKey k := fun e => h (encKey_inj a k hwa hk e)
+      simp only [this, h, if_false]
+      exact ih (fun p hp => hm p (List.mem_cons_of_mem _ hp))
+
 end DaeVerif.C03
